@@ -79,12 +79,12 @@ func typeAt(y *yang.YangType, depth int) *yref.XType {
 	if y.IdentityBase != nil {
 		x.IdentityBase = OwnerName(y.IdentityBase) + ":" + y.IdentityBase.Name
 		if r := yang.RootNode(y.IdentityBase); r != nil {
-			x.IdentityBaseIn = r.FullName()
+			x.IdentityBaseIn = r.Kind() + " " + r.FullName()
 		}
 		for _, v := range y.IdentityBase.Values {
 			n := v.Name
 			if r := yang.RootNode(v); r != nil {
-				n = r.FullName() + ":" + n
+				n = r.Kind() + " " + r.FullName() + ":" + n
 			}
 			x.IdentityValues = append(x.IdentityValues, n)
 		}
